@@ -22,13 +22,14 @@ struct Canvas {
   int64_t w = 0, h = 0;
   bool alpha = false;
   int cw = 8, nch = 3;
-  uint64_t maxv = 0xFF;
+  uint64_t maxv = 0xFF;  // the canvas' channel maximum (MAXVAL): 2^cw-1 unless loaded/constructed with another one
+  uint64_t mask = 0xFF;  // 2^cw-1: what the storage can hold
   std::vector<uint64_t> v;   // w*h*nch channel values
   std::vector<uint8_t> fl;   // w*h flags
   bool tainted = false;      // any ANY/MAYBE flag set since last resync
 
-  void init(int64_t w_, int64_t h_, bool a, int cw_) {
-    w = w_; h = h_; alpha = a; cw = cw_; nch = a ? 4 : 3; maxv = mask_of(cw_);
+  void init(int64_t w_, int64_t h_, bool a, int cw_, uint64_t maxv_ = 0) {
+    w = w_; h = h_; alpha = a; cw = cw_; nch = a ? 4 : 3; mask = mask_of(cw_); maxv = maxv_ ? maxv_ : mask;
     v.assign((size_t)(w * h * nch), 0);
     fl.assign((size_t)(w * h), EXACT);
     tainted = false;
@@ -42,8 +43,8 @@ struct Canvas {
   inline uint8_t flag(int64_t x, int64_t y) const { return fl[(size_t)(y * w + x)]; }
   inline void put(int64_t x, int64_t y, const uint64_t c[4], uint8_t f = EXACT) {
     uint64_t* p = &v[(size_t)((y * w + x) * nch)];
-    p[0] = c[0] & maxv; p[1] = c[1] & maxv; p[2] = c[2] & maxv;
-    if (alpha) p[3] = c[3] & maxv;
+    p[0] = c[0] & mask; p[1] = c[1] & mask; p[2] = c[2] & mask;
+    if (alpha) p[3] = c[3] & mask;
     fl[(size_t)(y * w + x)] = f;
     if (f) tainted = true;
   }
@@ -52,6 +53,7 @@ struct Canvas {
     if (f) tainted = true;
   }
   bool same_format(const Canvas& o) const { return w == o.w && h == o.h && alpha == o.alpha && cw == o.cw; }
+  bool odd_max() const { return maxv != mask; }
 };
 
 // ------------------------------------------------------------------------------------------------
@@ -177,6 +179,7 @@ static inline bool apply_model(const Op& o, Canvas& d, const Canvas& s, const Ca
         if (s.flag(px, py) != EXACT) { d.mark(dx, dy, ANY); return; }
         uint64_t S[4], D[4];
         s.get(px, py, S);
+        if (!s.alpha && s.maxv != 0xFF) { d.mark(dx, dy, ANY); return; }  // implied alpha is not in 8-bit alpha units
         if (S[3] == 0) return;
         if (S[3] == 0xFF) { d.put(dx, dy, S); return; }
         if (s.cw == 8 && d.cw == 8) {
@@ -222,18 +225,19 @@ static inline bool apply_model(const Op& o, Canvas& d, const Canvas& s, const Ca
       });
       break;
     case K_BLEND:
+      // rule in units of the DESTINATION's channel maximum: sa == max copies, 0 < sa < max blends with divisor max
       walk(d, s, o.x, o.y, o.w, o.h, o.sx, o.sy, [&](int64_t dx, int64_t dy, int64_t px, int64_t py) {
         if (s.flag(px, py) != EXACT) { d.mark(dx, dy, ANY); return; }
         uint64_t S[4], D[4];
         s.get(px, py, S);
         if (S[3] == 0) return;
-        if (s.cw != d.cw) { d.mark(dx, dy, ANY); return; }
+        if (s.cw != d.cw || s.maxv != d.maxv) { d.mark(dx, dy, ANY); return; }  // alpha scales differ: not demanded
         if (S[3] == d.maxv) { d.put(dx, dy, S); return; }
-        if (d.cw == 8) {
+        if (d.cw == 8 && S[3] < d.maxv) {
           d.get(dx, dy, D);
           uint64_t n[4];
-          for (int k = 0; k < 3; k++) n[k] = (S[k] * S[3] + D[k] * (0xFF - S[3])) / 0xFF;
-          n[3] = (S[3] * S[3] + D[3] * (0xFF - S[3])) / 0xFF;
+          for (int k = 0; k < 3; k++) n[k] = (S[k] * S[3] + D[k] * (d.maxv - S[3])) / d.maxv;
+          n[3] = (S[3] * S[3] + D[3] * (d.maxv - S[3])) / d.maxv;
           d.put(dx, dy, n);
         } else {
           d.mark(dx, dy, ANY);
@@ -246,7 +250,7 @@ static inline bool apply_model(const Op& o, Canvas& d, const Canvas& s, const Ca
         uint64_t S[4], D[4];
         s.get(px, py, S);
         if (S[3] == 0 || o.salpha == 0) return;  // effective alpha 0 in any arithmetic
-        if (s.cw != d.cw || d.cw == 64 || o.salpha > d.maxv) { d.mark(dx, dy, ANY); return; }
+        if (s.cw != d.cw || s.maxv != d.maxv || d.cw == 64 || o.salpha > d.maxv || S[3] > d.maxv) { d.mark(dx, dy, ANY); return; }
         uint64_t ea = (o.salpha * S[3]) / d.maxv;  // no overflow for widths <= 32
         if (ea == 0) return;
         if (ea == d.maxv) {
@@ -257,7 +261,7 @@ static inline bool apply_model(const Op& o, Canvas& d, const Canvas& s, const Ca
         if (d.cw == 8) {
           d.get(dx, dy, D);
           uint64_t n[4];
-          for (int k = 0; k < 3; k++) n[k] = (S[k] * ea + D[k] * (0xFF - ea)) / 0xFF;
+          for (int k = 0; k < 3; k++) n[k] = (S[k] * ea + D[k] * (d.maxv - ea)) / d.maxv;
           n[3] = D[3];
           d.put(dx, dy, n);
         } else {
@@ -345,6 +349,8 @@ static inline bool apply_model(const Op& o, Canvas& d, const Canvas& s, const Ca
         for (int64_t x = 0; x < d.w; x++) {
           uint64_t a[4];
           d.get(x, y, a);
+          // channel -> maximum - channel; a stored value above the canvas' own maximum has no complement: not demanded
+          if (a[0] > d.maxv || a[1] > d.maxv || a[2] > d.maxv || a[3] > d.maxv) { d.mark(x, y, ANY); continue; }
           for (int k = 0; k < 4; k++) a[k] = d.maxv - a[k];
           d.put(x, y, a);
         }
@@ -368,9 +374,9 @@ static inline bool apply_model(const Op& o, Canvas& d, const Canvas& s, const Ca
 // set_channel_width: widening copies the value into every lower slice ("the now-high bits to the
 // lower bits"), narrowing keeps the high bits (rule documented in Image::set_channel_width).
 static inline void model_set_width(Canvas& c, int nw) {
-  if (nw == c.cw) return;
+  if (nw == c.cw) return;  // same width: nothing happens, the maximum stays
   Canvas n;
-  n.init(c.w, c.h, c.alpha, nw);
+  n.init(c.w, c.h, c.alpha, nw);  // new maximum = 2^nw-1
   for (size_t i = 0; i < c.v.size(); i++) {
     uint64_t v = c.v[i], r = 0;
     if (nw > c.cw) {
@@ -378,7 +384,7 @@ static inline void model_set_width(Canvas& c, int nw) {
     } else {
       r = v >> (c.cw - nw);
     }
-    n.v[i] = r & n.maxv;
+    n.v[i] = r & n.mask;
   }
   c = n;
 }
@@ -387,7 +393,7 @@ static inline void model_set_width(Canvas& c, int nw) {
 static inline void model_set_alpha(Canvas& c, bool a) {
   if (a == c.alpha) return;
   Canvas n;
-  n.init(c.w, c.h, a, c.cw);
+  n.init(c.w, c.h, a, c.cw, c.maxv);
   for (int64_t i = 0; i < c.w * c.h; i++) {
     for (int k = 0; k < 3; k++) n.v[(size_t)(i * n.nch + k)] = c.v[(size_t)(i * c.nch + k)];
     if (a) n.v[(size_t)(i * n.nch + 3)] = n.maxv;
